@@ -80,19 +80,106 @@ def norm_impl(line):
     return line if i < 0 else line[:i]
 
 
+SEQS = [0, 1, -1, 7, 255, 256, 65535, 65536, (1 << 24) - 1, 1 << 24, (1 << 24) + 1, 0x01020304, (1 << 31) - 1, -(1 << 31), -2]
+NAMES = [b"", b"m", b"ping", b"getUser", b"n" * 300]
+
+
+def gen_msg_cases(rng, n):
+    """mrt: sequences of enveloped messages (write_message_begin + value + write_message_end) written with ONE writer and
+    read back with ONE reader: the four protocols (incl. the unchecked binary codec), every buffer kind, in-memory and
+    asynchronous readers"""
+    cases = []
+    def one(pk, bk, mode, k):
+        parts = []
+        for _ in range(k):
+            name = rng.choice(NAMES) if rng.random() < 0.9 else b"z" * rng.choice([4095, 4096, 5000])
+            seq = rng.choice(SEQS) if rng.random() < 0.7 else rng.randrange(-(1 << 31), 1 << 31)
+            v = rng.choice(["S2 f1 b1 f2 i5", "S0", "S1 f1 S1 f2 b0", "S3 f1 s6162 f2 L2,2 b1 b0 f16 y-1"]) if rng.random() < 0.5 \
+                else tg.gen_of_type(rng, "struct", rng.choice([1, 2, 3]), big_ok=False)
+            parts.append("%s %d %d %s" % (tg.hx(name), rng.choice([1, 2, 3, 4]), seq, v))
+        rest = bytes(rng.randrange(256) for _ in range(rng.choice([0, 0, 2, 7])))
+        return "mrt %s %s %s %s %d %s" % (pk, bk, mode, tg.hx(rest), k, " ".join(parts))
+    for pk in PKS + ["unsafe"]:
+        for bk in BKS:
+            for k in (1, 2, 3):
+                cases.append(one(pk, bk, "sync", k))
+                if pk != "unsafe":
+                    cases.append(one(pk, bk, "async:" + rng.choice(["all", "b1", "h", "b1/p1"]), k))
+    while len(cases) < n:
+        pk = rng.choice(PKS + ["unsafe", "unsafe"])
+        mode = "sync" if pk == "unsafe" or rng.random() < 0.6 else "async:" + rng.choice(["all", "b1", "h", "all/p2", "b1/p1"])
+        cases.append(one(pk, rng.choice(BKS), mode, rng.choice([1, 2, 2, 3])))
+    return cases
+
+
+def val_end(toks, j):
+    """index after the value starting at toks[j]"""
+    tok = toks[j]; c = tok[0]; j += 1
+    if c == "S":
+        for _ in range(int(tok[1:])):
+            j = val_end(toks, j + 1)
+    elif c in "LT":
+        for _ in range(int(tok.split(",")[1])):
+            j = val_end(toks, j)
+    elif c == "M":
+        for _ in range(2 * int(tok.split(",")[2])):
+            j = val_end(toks, j)
+    return j
+
+
+def msg_want(case):
+    """expected R tokens and REM of an mrt case"""
+    t = case.split(" ")
+    pk, rest, k = t[1], t[4], int(t[5])
+    toks = t[6:]
+    want, i = [], 0
+    for _ in range(k):
+        want += toks[i:i + 3]
+        e = val_end(toks, i + 3)
+        want += tg.canon_tokens("compact" if pk == "compact" else "binary", toks[i + 3:e])
+        i = e
+    return want, (0 if rest == "-" else len(rest) // 2)
+
+
+def msg_oracle(case, out):
+    if not out.startswith("W "):
+        return "writing an enveloped message failed: " + out[:80]
+    if " R " not in out:
+        return "reading an enveloped message back failed: " + out[out.index(" ", 2):][:80]
+    r = out[out.index(" R ") + 3:].split(" ")
+    if "REM" not in r:
+        return "malformed output"
+    j = r.index("REM")
+    want, nrest = msg_want(case)
+    if r[:j] != want:
+        return "message sequence read back differs from what was written (envelope, or the value after an envelope)"
+    if int(r[j + 1]) != nrest:
+        return "reader of enveloped messages consumed %d bytes more than were written" % (nrest - int(r[j + 1]))
+    return None
+
+
 def run(chk, replay=None):
-    return run_rt(chk, replay, oracle, "C01")
+    return run_rt(chk, replay, oracle, "C01", extra=(gen_msg_cases, msg_oracle, "mrt"))
 
 
-def run_rt(chk, replay, oracle, prop):
+def run_rt(chk, replay, oracle, prop, extra=None):
     gate, hb = core.std_setup(chk)
     rng = random.Random(chk.seed)
     n = 3000 if chk.tier == "quick" else 400000
     cases = gen_cases(rng, n) if replay is None else [replay["case"]]
+    if extra is not None:
+        xgen, xoracle, xname = extra
+        if replay is None:
+            cases = cases + xgen(rng, max(120, min(n, 6000) // 5))
+        base_oracle = oracle
+        oracle = lambda c, o: xoracle(c, o) if c.startswith(xname + " ") else base_oracle(c, o)
     chk.cov["rule"] = ("rt cases: protocol x buffer kind x 1-3 generated value trees (depth<=6, boundary ints, "
                        "field ids around short/long-form and i16 limits, sizes around 14/15 and the 4096 zero-copy "
                        "threshold) x trailing bytes; written back to back with one writer and read with one reader; "
-                       "non-trivial = contains a non-empty struct/container; distinct by SHA-1 of the case line")
+                       "non-trivial = contains a non-empty struct/container; distinct by SHA-1 of the case line. "
+                       "mrt (C01): 1-3 enveloped messages (name lengths 0..5000, 4 message types, boundary sequence ids) x {binary, "
+                       "binary_le, compact, unchecked binary} x buffer kinds x {in-memory, async reader under a schedule}, one writer / "
+                       "one reader. apps (C04): ApplicationException size()/encode() sequences on one protocol object")
     bins = []
     if hb:
         bins.append(("debug", hb))
@@ -114,16 +201,20 @@ def run_rt(chk, replay, oracle, prop):
                 if norm_impl(o) != m:
                     mism.append((c, o, m, prof))
     for c in cases:
-        toks = split_case(c)[4]
-        chk.count(c, tg.nontrivial(toks))
+        if c.startswith("rt "):
+            chk.count(c, tg.nontrivial(split_case(c)[4]))
+        else:
+            chk.count(c, True)
     chk.sample(cases[0]); chk.sample(cases[len(cases) // 2]); chk.sample(cases[-1])
     chk.cov["disagreements_checked"] = len(cases) * len(bins)
     chk.cov["model_impl_mismatches"] = len(mism)
+    rts = [c for c in cases if c.startswith("rt ")]
     chk.cov["distribution"] = dict(
-        protocols={p: sum(1 for c in cases if c.split(" ")[1] == p) for p in PKS},
-        buffers={b: sum(1 for c in cases if c.split(" ")[2] == b) for b in BKS},
-        multi_value=sum(1 for c in cases if int(c.split(" ")[4]) > 1),
-        with_trailing=sum(1 for c in cases if c.split(" ")[3] != "-"),
+        protocols={p: sum(1 for c in rts if c.split(" ")[1] == p) for p in PKS},
+        buffers={b: sum(1 for c in rts if c.split(" ")[2] == b) for b in BKS},
+        multi_value=sum(1 for c in rts if int(c.split(" ")[4]) > 1),
+        with_trailing=sum(1 for c in rts if c.split(" ")[3] != "-"),
+        other_suites={k: sum(1 for c in cases if c.startswith(k + " ")) for k in ("mrt", "apps")},
         max_case_len=max(len(c) for c in cases))
     # report
     for c, why, o in failing[:3]:
